@@ -1012,14 +1012,15 @@ func runResponseStream(c *Ctx, n int, focus string) {
 		// outcome is rejection ("an unsigned Response is accepted only if EVERY assertion it carries is individually signed")
 		hugeFirst := focus == "C01" && (k == 57 || (c.Thorough() && k%500 == 57))
 		if hugeFirst {
-			vals := make([]string, 520+r.Intn(200))
+			vals := make([]string, 1100+r.Intn(300))
 			for i := range vals {
 				vals[i] = fmt.Sprintf("group-%04d", i)
 			}
 			a0 := rs.Assertions[0]
 			a0.Attrs = []AttrSpec{{Name: "groups", Values: vals}}
 			a0.XsiTypes, a0.CommentInValues, a0.UseCDATA = false, false, false
-			placement, key, mod = 2, w.IdP1, nil
+			placement, key = 2, w.IdP1
+			mod = func(o *SignOpts) { o.AfterIssuer, o.C14N = true, "exc" } // the signature is found before the budget is spent
 			store = []*KeyPair{w.IdP1}
 			sp.IDPCertificateStore = g.newSPFor(store, now).IDPCertificateStore
 			sp.SkipSignatureValidation = false
